@@ -54,6 +54,11 @@ type target struct {
 	// body mode, no explicit return at the end: return these Go expressions.
 	FinalRet []string `json:"final_ret"`
 	Ignore   []string `json:"ignore"`
+	// body mode, `for` loops: the loop becomes Base.GoInt.while_fuel with LoopFuel iterations (default 64);
+	// OnFuel is the Coq term returned when the fuel runs out (required when the slice contains a loop; choose
+	// a value the function cannot return, so that a theorem about the result excludes exhaustion).
+	LoopFuel int    `json:"loop_fuel"`
+	OnFuel   string `json:"on_fuel"`
 }
 
 type unit struct {
@@ -666,6 +671,61 @@ func (x *tr) block(stmts []ast.Stmt, k func() string, ind string) string {
 			els = []ast.Stmt{e}
 		}
 		return x.branch(c, n.Body.List, els, rest, ind)
+	case *ast.ForStmt:
+		// `for init; cond; post { body }` with integer/boolean locals only and no return / break / continue /
+		// goto / nested loop inside: init; while_fuel FUEL (fun st => cond) (fun st => body; post) st
+		if n.Init != nil {
+			cp := *n
+			cp.Init = nil
+			return x.block(append([]ast.Stmt{n.Init, &cp}, stmts[1:]...), k, ind)
+		}
+		if n.Cond == nil {
+			abort(n, "for without condition")
+		}
+		if x.t.OnFuel == "" {
+			abort(n, "loop in target %s without on_fuel", x.t.Name)
+		}
+		body := append([]ast.Stmt{}, n.Body.List...)
+		if n.Post != nil {
+			body = append(body, n.Post)
+		}
+		for _, b := range body {
+			ast.Inspect(b, func(m ast.Node) bool {
+				switch m.(type) {
+				case *ast.ReturnStmt, *ast.BranchStmt, *ast.ForStmt, *ast.RangeStmt, *ast.GoStmt, *ast.DeferStmt, *ast.LabeledStmt:
+					abort(m, "unsupported statement inside a loop body: %s", src(m))
+				}
+				return true
+			})
+		}
+		names := assigned(body, x.vars)
+		if len(names) == 0 {
+			abort(n, "loop assigns no outer variable")
+		}
+		if len(x.assignedFields(body)) != 0 {
+			abort(n, "loop assigns a field")
+		}
+		fuel := x.t.LoopFuel
+		if fuel == 0 {
+			fuel = 64
+		}
+		bind := "let " + pat(names) + " := st in "
+		saveV, saveE := x.cloneVars(), x.cloneEnv()
+		c, cty := x.expr(n.Cond)
+		if cty != "bool" {
+			abort(n, "non-boolean loop condition")
+		}
+		b := x.block(body, func() string { return tuple(names) }, ind+"      ")
+		// the loop must not change the type of a carried variable
+		for _, nm := range names {
+			if x.vars[nm] != saveV[nm] {
+				abort(n, "loop changes the type of %s (%s -> %s)", nm, saveV[nm], x.vars[nm])
+			}
+		}
+		x.vars, x.env = saveV, saveE
+		return "match while_fuel " + fmt.Sprint(fuel) + "\n" + ind + "    (fun st => " + bind + c + ")\n" + ind +
+			"    (fun st => " + bind + "\n" + ind + "      " + b + ")\n" + ind + "    " + tuple(names) + " with\n" + ind +
+			"| None => " + x.t.OnFuel + "\n" + ind + "| Some st => " + bind + "\n" + ind + "  " + rest() + "\n" + ind + "end"
 	case *ast.SwitchStmt:
 		if n.Init != nil {
 			// `switch init; tag { ... }` == `init; switch tag { ... }` (the init variable's scope is
@@ -862,6 +922,18 @@ func (x *tr) assignRhs(n *ast.AssignStmt, cur, curTy string) (string, string) {
 	}
 	ops := map[token.Token]token.Token{token.ADD_ASSIGN: token.ADD, token.SUB_ASSIGN: token.SUB,
 		token.MUL_ASSIGN: token.MUL, token.QUO_ASSIGN: token.QUO, token.REM_ASSIGN: token.REM}
+	if n.Tok == token.SHL_ASSIGN || n.Tok == token.SHR_ASSIGN {
+		// x <<= k / x >>= k: the shift count's type does not take part in the result type
+		if !isInt(curTy) || curTy == "time" {
+			abort(n, "shift of %s", curTy)
+		}
+		r, _ := x.expr(n.Rhs[0])
+		op := token.SHL
+		if n.Tok == token.SHR_ASSIGN {
+			op = token.SHR
+		}
+		return "(" + arith(op, curTy) + " " + paren(cur) + " " + paren(r) + ")", curTy
+	}
 	op, ok := ops[n.Tok]
 	if !ok {
 		abort(n, "assignment operator %v", n.Tok)
